@@ -7,7 +7,7 @@ Route: a word-level recurrence `W nk w0 : Nat → UInt32` (w[i] = w[i-nk] ^ g(w[
 -/
 import RelicVerif.Lemmas.RijndaelBase
 
-namespace Relic.Lemmas.Rijndael
+namespace Relic.Lemmas.Rijndael.Key
 open Relic.Spec.Aes Relic.Model
 open Relic.Lemmas.AesTables (X b3_X b2_X b1_X b0_X)
 
@@ -606,10 +606,7 @@ kept), with the `setIfInBounds` / `getD` bookkeeping as in `Agree.wr`, and the f
 `eqInvKeys_getD` and `List.getD` of a reversed list.
 -/
 
-#print axioms invMixColumns_words_partial
-#print axioms keySetupEnc_ok
-
-end Relic.Lemmas.Rijndael
+end Relic.Lemmas.Rijndael.Key
 
 
 
